@@ -15,7 +15,7 @@ HERE = os.path.dirname(os.path.abspath(__file__)); ROOT = os.path.dirname(HERE)
 def registry():
     return json.load(open(os.path.join(ROOT, 'kani', 'harnesses.json')))
 
-CARGO_TOML = '[package]\nname = "datasketches"\nversion = "0.0.0"\nedition = "2024"\n\n[lints.rust]\nunexpected_cfgs = { level = "allow" }\n[workspace]\n'
+CARGO_TOML = '[package]\nname = "datasketches"\nversion = "0.0.0"\nedition = "2024"\n\n[dev-dependencies]\ngoogletest = "0.14.2"\ninsta = "1.46.1"\n\n[lints.rust]\nunexpected_cfgs = { level = "allow" }\n[workspace]\n'
 
 def make_crate(repo, files):
     """files: {harness file (abs): append_to rel}"""
@@ -114,6 +114,44 @@ def run(names, repo='/repo', jobs=4, playback=False, keep=False, extra_timeout=N
         else: shutil.rmtree(d, ignore_errors=True)
     for r in results.values(): r['batch_wall_s'] = round(time.time() - t0, 1)
     return results
+
+def playback(name, repo='/repo', timeout=None):
+    """re-run one failing harness with --concrete-playback=inplace on a fresh copy, then execute the generated unit test on the
+    real code with `cargo kani playback`; returns dict(values, test_source, concrete_failed, concrete_output)"""
+    reg = {h['name']: h for h in registry()}
+    h = reg[name]
+    d = make_crate(repo, {os.path.join(ROOT, 'kani', h['file']): h['append_to']})
+    out = {'harness': name, 'values': [], 'test_source': None, 'concrete_failed': None, 'concrete_output': ''}
+    try:
+        stem = re.sub(r'\W', '_', h['file'][:-3])
+        modpath = h['append_to'][:-3].replace('/', '::')
+        if modpath.endswith('::mod'): modpath = modpath[:-5]
+        if modpath == 'lib': modpath = ''
+        full = '::'.join([x for x in (modpath, 'verif_kani_%s' % stem, h['name']) if x])
+        env = dict(os.environ, CARGO_NET_OFFLINE='true', CARGO_TARGET_DIR=os.path.join(d, 'target')); env.pop('RUSTUP_TOOLCHAIN', None)
+        to = int(timeout or h.get('timeout', 300))
+        cmd = ['cargo', 'kani', '-Z', 'stubbing', '-Z', 'function-contracts', '-Z', 'concrete-playback', '--concrete-playback=inplace', '-Z', 'unstable-options', '--harness-timeout', '%ds' % to, '--exact', '--harness', full]
+        try:
+            p = subprocess.run(cmd, cwd=d, env=env, capture_output=True, text=True, timeout=to + 600)
+        except subprocess.TimeoutExpired:
+            return out
+        src = open(os.path.join(d, 'src', h['append_to'])).read()
+        m = re.search(r'(#\[test\]\s*fn kani_concrete_playback_\w+\(\) \{.*?\n\s*\})', src, re.S)
+        if not m: return out
+        out['test_source'] = m.group(1)
+        out['values'] = re.findall(r'//\s*(.+?)\s*\n\s*vec!\[([^\]]*)\]', m.group(1))
+        try:
+            p2 = subprocess.run(['cargo', 'kani', 'playback', '-Z', 'concrete-playback', '--', 'kani_concrete_playback'], cwd=d, env=env, capture_output=True, text=True, timeout=1200)
+            o = p2.stdout + p2.stderr
+            out['concrete_failed'] = bool(re.search(r'test result: FAILED', o))
+            pm = re.search(r"panicked at ([^\n]*\n[^\n]*)", o)
+            out['concrete_output'] = (pm.group(0) if pm else o[-400:])[:500]
+            out['stubbed'] = 'has stubs which are not applied' in src
+        except subprocess.TimeoutExpired:
+            pass
+        return out
+    finally:
+        shutil.rmtree(d, ignore_errors=True)
 
 def main():
     if len(sys.argv) < 2: print(__doc__); return 2
